@@ -115,6 +115,16 @@ class Grammar(Generic[_NodeT]):
             if module_node is not None:
                 return module_node  # type: ignore[no-any-return]
 
+        # The modification time has to be fetched before the file is read.
+        # Otherwise a modification that happens after reading would be
+        # attributed to the tree that is cached now and never be noticed.
+        change_time = None
+        if (cache or diff_cache) and file_io.path is not None:
+            try:
+                change_time = file_io.get_last_modified()
+            except OSError:
+                pass
+
         if code is None:
             code = file_io.read()
         code = python_bytes_to_unicode(code)
@@ -143,7 +153,8 @@ class Grammar(Generic[_NodeT]):
                 try_to_save_module(self._hashed, file_io, new_node, lines,
                                    # Never pickle in pypy, it's slow as hell.
                                    pickling=cache and not is_pypy,
-                                   cache_path=cache_path)
+                                   cache_path=cache_path,
+                                   change_time=change_time)
                 return new_node  # type: ignore[no-any-return]
 
         tokens = self._tokenizer(lines)
@@ -159,7 +170,8 @@ class Grammar(Generic[_NodeT]):
             try_to_save_module(self._hashed, file_io, root_node, lines,
                                # Never pickle in pypy, it's slow as hell.
                                pickling=cache and not is_pypy,
-                               cache_path=cache_path)
+                               cache_path=cache_path,
+                               change_time=change_time)
         return root_node  # type: ignore[no-any-return]
 
     def _get_token_namespace(self):
